@@ -105,50 +105,44 @@ def pair(v):
     return (v, v) if not isinstance(v, (list, tuple)) else (v[0], v[1])
 
 
-def setups_2d(call, shape):
-    m, kw, w = call['m'], call['kw'], call['w']
-    wl = None if w is None else (shape if w == 'ok' else (shape[0] + 1, shape[1]))
-    if m in POLY2_PINV or m == 'quant_reg':
-        px, pz = pair(kw['poly_order'])
-        return [('P', wl, px, pz, kw['max_cross'], True, m != 'quant_reg')]
-    if m in ('iasls', 'pspline_iasls'):
-        if kw.get('p', 0.01) >= 1 or kw['diff_order'] < 2:
-            return [('R',)]
-        s = []
-        wl2 = wl
-        if w is None:
-            s.append(('P', None, 2, 2, None, True, True))
-            wl2 = shape
-        if m == 'pspline_iasls':
-            s.append(('S', wl2, tuple(kw['num_knots']) + tuple(kw['spline_degree']), True) + pair(kw['diff_order']))
-        return s
-    if m in SPLINES2:
-        return [('S', wl, tuple(kw['num_knots']) + tuple(kw['spline_degree']), True) + pair(kw['diff_order'])]
-    return []
-
-
-def coq_setup2(s):
-    if s[0] == 'P':
-        return f'SPoly2 {coq_optp(s[1])} {zl(s[2])} {zl(s[3])} {coq_opt(s[4])} {coq_b(s[5])} {coq_b(s[6])}'
-    if s[0] == 'S':
-        k = s[2]
-        return f'SSpline2 {coq_optp(s[1])} ({zl(k[0])}, {zl(k[1])}, {zl(k[2])}, {zl(k[3])}) {coq_b(s[3])} {zl(s[4])} {zl(s[5])}'
-    return 'SRaise2'
-
-
 def data_shape(call, M, N):
     return {'ok': (M, N), 'nan': (M, N), 'short': (M, N - 1), 'none': None}[call['data']]
 
 
-def coq_call_2d(call, M, N, extra_raise=False):
+def pre_raise_2d(call):
+    m, kw = call['m'], call['kw']
+    if m in ('iasls', 'pspline_iasls'):
+        return kw.get('p', 0.01) >= 1 or kw.get('diff_order', 2) < 2
+    return False
+
+
+def item_2d(call, M, N, raised):
+    """Coq `item2`: registered method name + the concrete values of the parameters the generated table refers to
+    (defaults of the method's signature where not passed)."""
+    import inspect
+    from pybaselines import Baseline2D
     if call['m'] == 'set_solver':
-        return f'SetSolver2 {zl(call["v"])}'
+        return f'ISolver2 {zl(call["v"])}'
+    m, kw, w = call['m'], call['kw'], call['w']
+    sig = inspect.signature(getattr(Baseline2D, m)).parameters
+
+    def val(name, fallback):
+        if name in kw:
+            return kw[name]
+        d = sig[name].default if name in sig else fallback
+        return d if isinstance(d, (int, list, tuple)) and not isinstance(d, bool) else fallback
     sh = data_shape(call, M, N)
-    ss = setups_2d(call, sh if sh is not None else (M, N))
-    if extra_raise:
-        ss = ss + [('R',)]
-    return ('Call2 {| d_data := %s; d_dataok := %s; d_setups := [%s] |}'
-            % (coq_optp(sh), coq_b(call['data'] != 'nan'), '; '.join(coq_setup2(s) for s in ss)))
+    base = sh if sh is not None else (0, 0)
+    wl = None if w is None else (base if w == 'ok' else (base[0] + 1, base[1]))
+    px, pz = pair(val('poly_order', 0))
+    k1, k2 = pair(val('num_knots', 0))
+    d1, d2 = pair(val('spline_degree', 0))
+    do1, do2 = pair(val('diff_order', 0))
+    mc = kw.get('max_cross')
+    return ('IMethod2 "%s" {| b_data := %s; b_dataok := %s; b_w := %s; b_px := %s; b_pz := %s; b_mc := %s; '
+            'b_k := (%s, %s, %s, %s); b_dox := %s; b_doz := %s; b_pre_raise := %s; b_post_raise := %s |}'
+            % (m, coq_optp(sh), coq_b(call['data'] != 'nan'), coq_optp(wl), zl(px), zl(pz), coq_opt(mc),
+               zl(k1), zl(k2), zl(d1), zl(d2), zl(do1), zl(do2), coq_b(pre_raise_2d(call)), coq_b(raised)))
 
 
 def make_data2(M, N, seed):
@@ -305,7 +299,7 @@ def nontrivial_2d(h):
 def history_literal_2d(h, recs):
     from .c03 import unpredicted_ok
     M, N = h['M'], h['N']
-    ops = [coq_call_2d(c, M, N, extra_raise=unpredicted_ok(c, r)) for c, r in zip(h['calls'], recs)]
+    ops = [item_2d(c, M, N, unpredicted_ok(c, r)) for c, r in zip(h['calls'], recs)]
     exp = '[' + '; '.join('[' + '; '.join(zl(v) for v in rec[0]) + ']' for rec in recs) + ']'
     x0 = 'None' if h['x'] in ('none', 'z') else f'(Some {M})'
     z0 = 'None' if h['x'] in ('none', 'x') else f'(Some {N})'
